@@ -63,6 +63,12 @@ CORPUS = [
                          "chooser": {"kind": "seed", "seed": 5}},
                         {"mode": "async", "path": "/snap/A", "spec": {"tensors": [[1], [2, 1]], "seed": 4, "nobatch": True}, "faults": [],
                          "chooser": {"kind": "prio", "order": [0, 1]}}]},
+    # a payload write fails while the rank is still staging under a tight budget (3 unbatched writes, budget 24, I/O
+    # concurrency 2): sync and async; nothing readable-but-incomplete may be left (minimised from seed C02-A)
+    {"W": 2, "rounds": [{"mode": "sync", "path": "/snap/A", "spec": {"budget": 24, "conc": 2, "nobatch": True, "seed": 294, "tensors": [[1, 8, 5], [2]]},
+                         "faults": [[0, 1]], "chooser": {"kind": "seed", "seed": 67722}}]},
+    {"W": 2, "rounds": [{"mode": "async", "path": "/snap/A", "spec": {"budget": 24, "conc": 2, "nobatch": True, "seed": 294, "tensors": [[1, 8, 5], [2]]},
+                         "faults": [[0, 1]], "chooser": {"kind": "seed", "seed": 67722}}]},
 ]
 
 
